@@ -1797,7 +1797,13 @@ class Rule(metaclass=LogicalType):
         # IMPORTANT:
         # we must do clone here (as the parser do make_runtime)
         # to prompt a new RuntimeOptions, to collect the error in this layer
-        value = cls.pre_validate(value, context)
+        try:
+            value = cls.pre_validate(value, context)
+        except exc.ParseError:
+            raise
+        except Exception as e:
+            # e.g. datetime.min.timestamp() is out of range: a failure of the hook is a parse failure of the value
+            context.handle_error(exc.ParseError(origin_exc=e), force_raise=True)
 
         if cls.__origin__:
             # no matter cls.__transformer__ is None or not
